@@ -269,6 +269,11 @@ class Generator(AbstractODSGenerator):
                     if balance_set.exchange not in asset_crypto_balance_holder_exchange[asset][balance_set.holder]:
                         asset_crypto_balance_holder_exchange[asset][balance_set.holder][balance_set.exchange] = balance_set.final_balance
 
+            # With negative balances allowed an asset can have unsold lots but no account with a positive balance (e.g. an
+            # exchange-supplied crypto_out_with_fee smaller than what left the account): there is no open position to report
+            if asset in asset_cost_bases and asset not in asset_crypto_balance_holder:
+                total_cost_basis -= asset_cost_bases.pop(asset)
+
         # Now looping through the assets to do the reporting.
         for asset, asset_cost_basis in asset_cost_bases.items():
             total_crypto_balance = ZERO
